@@ -38,8 +38,12 @@ def check_string(acc, src, origin):
     if exc is not None:
         acc.extra['strict_failures'] += 1
         return
-    t = str(s1)
     case = {'src': src, 'origin': origin}
+    try:
+        t = str(s1)
+    except Exception as e:      # noqa: serialising a parsed tree must not fail
+        acc.violation('serialise-raises', case, 'str(TexSoup(src)) succeeds', egram.exc_repr(e), size=len(src))
+        return
     s2, exc = egram.parse(t)
     if exc is not None:
         acc.violation('reparse-fails', case, 'TexSoup(%r) succeeds' % t, egram.exc_repr(exc), size=len(src))
